@@ -653,7 +653,7 @@ Lemma valid_index : forall id d tm, PS id d tm ->
          (put_index_prog id (H d) (length d) tm).
 Proof.
   intros id d tm Hps. destruct (PS_ok _ _ _ Hps) as (Ud & _).
-  unfold put_index_prog. rewrite open_index. fold (entry id d tm).
+  rewrite put_index_prog_eq; unfold put_index_body. rewrite open_index. fold (entry id d tm).
   set (e := entry id d tm). set (pi := IdxP id).
   apply (v_op _ _ _ _ _ _ (fun r s => r = ROk /\ sfiles s (DatP (H d)) = Some d /\ idx_exists id s)); [stab| |].
   { intros s torn Js Pc. destruct (cstep_open_idx id torn s Js) as (Hg & Hr & He).
@@ -716,7 +716,7 @@ Lemma valid_copy_rewrite : forall chunks,
   let d := concat chunks in U d ->
   validc (fun _ => True) (copied d) (copy_rewrite H (honest_reader chunks) (H d) (length d) false).
 Proof.
-  intros chunks d Ud. unfold copy_rewrite. rewrite open_copy_small.
+  intros chunks d Ud. rewrite copy_rewrite_eq; unfold copy_rewrite_body. rewrite open_copy_small.
   set (pd := DatP (H d)).
   apply (v_op _ _ _ _ _ _ (fun r s => r = ROk /\ at_least d 0 s)); [stab| |].
   { intros s torn Js _. destruct (cstep_open_dat d torn s Ud Js) as (Hg & Hr & Ha). auto. }
@@ -840,7 +840,7 @@ Proof.
   intros c Hok. destruct c as [id chunks tm|id rd tm|id|id|id]; cbn [call_prog]; [|destruct Hok| | |].
   - cbn [call_ok] in Hok. destruct (PS_ok _ _ _ Hok) as (Ud & _).
     apply valid_bind_ret; [|intros b; apply (post_stable (CPut id chunks tm) b)].
-    unfold put_prog. cbn [honest_reader rd_seek1 rd_ok1 rd_pass1 negb orb].
+    rewrite put_prog_eq; unfold put_prog_body. cbn [honest_reader rd_seek1 rd_ok1 rd_pass1 negb orb].
     eapply valid_bind; [apply (valid_copy_file chunks Ud)|].
     intros ok. destruct ok.
     + eapply valid_weaken; [|unfold copied; stab|intros s _ (_ & Pc); exact Pc].
